@@ -782,8 +782,58 @@ _REAL2SHIM[bytearray] = _BAProxy
 _REAL2SHIM[_BAProxy] = _BAProxy
 _REAL2SHIM[ShByteArray] = _BAProxy
 
+# ---- a one-directory in-memory file system for parse_file / build_file (binary modes only); contents may be symbolic
+FILES = {}
+
+
+class _ShFile(ShBytesIO):
+    def __init__(self, name, mode):
+        if "r" in mode and "+" not in mode and name not in FILES:
+            raise FileNotFoundError(2, "No such file or directory", name)
+        super().__init__(b"" if "w" in mode else FILES.get(name, b""))
+        self._name, self._mode = name, mode
+        if "w" in mode:
+            FILES[name] = b""
+
+    def _readable(self):
+        return "r" in self._mode or "+" in self._mode
+
+    def _writable(self):
+        return "w" in self._mode or "+" in self._mode or "a" in self._mode
+
+    def read(self, *a):
+        if not self._readable():
+            import io as _rio
+            raise _rio.UnsupportedOperation("read")
+        return super().read(*a)
+
+    def write(self, data):
+        if not self._writable():
+            import io as _rio
+            raise _rio.UnsupportedOperation("write")
+        return super().write(data)
+
+    def close(self):
+        if self._writable():
+            FILES[self._name] = self.getvalue()
+        super().close()
+
+    def __enter__(self):
+        return self
+
+    def __exit__(self, *a):
+        self.close()
+        return False
+
+
+def sh_open(name, mode="r", *a, **k):
+    if _isinstance(name, str) and name.startswith("symx://") and "b" in mode:
+        return _ShFile(name, mode)
+    return open(name, mode, *a, **k)
+
+
 INJECT = dict(isinstance=sh_isinstance, int=ShInt, bool=ShBool, bytes=ShBytes, bytearray=_BAProxy, str=ShStr,
-              type=sh_type, range=sh_range)
+              type=sh_type, range=sh_range, open=sh_open)
 HOOKS = dict(__symx_b__=CBytes, __symx_fmt__=symx_fmt, __symx_exc__=symx_exc, __symx_mod__=symx_mod, __symx_sjoin__=symx_sjoin,
              __symx_format__=symx_format)
 HOOKS_EXTRA = dict(HOOKS, __symx_fmt__=symx_fmt_precise, __symx_mod__=symx_mod_precise, __symx_format__=symx_format_precise)
